@@ -11,6 +11,7 @@ from typing import (
     Callable,
     Dict,
     Generic,
+    List,
     Mapping,
     Optional,
     Type,
@@ -182,17 +183,23 @@ class Runtime:
 
     def __enter__(self):
         with lock:
-            self.previous = _RUNTIMES.get(threading.current_thread())
-            _RUNTIMES[threading.current_thread()] = self
+            thread = threading.current_thread()
+            _PREVIOUS.setdefault(thread, []).append(_RUNTIMES.get(thread))
+            _RUNTIMES[thread] = self
             return self
 
     def __exit__(self, exc_type, exc_value, traceback):
         with lock:
-            _RUNTIMES[threading.current_thread()] = self.previous
-            self.previous = None
+            thread = threading.current_thread()
+            previous = _PREVIOUS[thread].pop()
+            if previous is None:
+                _RUNTIMES.pop(thread, None)
+            else:
+                _RUNTIMES[thread] = previous
 
 
 _RUNTIMES: Dict[threading.Thread, Runtime] = {}
+_PREVIOUS: Dict[threading.Thread, List[Optional[Runtime]]] = {}
 
 
 def current_runtime() -> Runtime:
